@@ -70,7 +70,7 @@ Proof. exact replaced_only_if_ca_says_gone. Qed.
 Print Assumptions C20_replaced_only_if_ca_says_gone.
 
 (** Clause 4 at full strength (the account reported missing IS the stored one) for one issuance
-    at a time; this is the statement the defect fixed by 78ef728 violated. *)
+    at a time; this is the statement the defect fixed by 6e1a233 violated. *)
 Theorem C20_replaced_only_if_ca_says_gone_sequential : forall s l s1 c a,
   seq_reachable s -> seq_ok s l -> step s l = Some s1 ->
   slots s c = Slot (Some a) (Some a) -> slots s1 c <> slots s c ->
@@ -175,7 +175,7 @@ Theorem C20_keypem_persisted_together_refuted :
 Proof. exact kp_persisted_together_refuted. Qed.
 Print Assumptions C20_keypem_persisted_together_refuted.
 
-(** ... but (since ec5c5dd; before it every later call with an e-mail failed) the account is not
+(** ... but (since 55396a9; before it every later call with an e-mail failed) the account is not
     lost: from any state without a foreign registration, with other calls stopped anywhere, the
     next call that runs alone and without faults returns the configured account and leaves it
     completely stored — "every later operation reuses that account". *)
